@@ -121,3 +121,52 @@ def rule_ter_chain_count(prog, rep, rid):
 def _guards(stmt, stop):
     from ..core import guards_of
     return [t for t, p in guards_of(stmt, stop) if p]
+
+
+PQR_MODEL_LINES = [
+    # (line, expected fields)  -- the layouts the PQR writer produces: default, --keep-chain, --whitespace, insertion code, negative numbers
+    ("REMARK   1 PQR file generated by PDB2PQR\n", None),
+    ("ATOM      1  N   MET     1      26.800  41.153   3.834 -0.3200 2.0000\n",
+     dict(type="ATOM", serial=1, name="N", res_name="MET", chain_id=None, res_seq=1, ins_code=None, x=26.8, y=41.153, z=3.834, charge=-0.32, radius=2.0)),
+    ("ATOM     17  OXT GLY A  -6      -1.500   0.000 -12.250 -0.8000 1.7000\n",
+     dict(type="ATOM", serial=17, name="OXT", res_name="GLY", chain_id="A", res_seq=-6, ins_code=None, x=-1.5, y=0.0, z=-12.25, charge=-0.8, radius=1.7)),
+    ("ATOM     18  H   GLY    -6       1.500   0.000  12.250  0.4000 0.0000\n",
+     dict(type="ATOM", serial=18, name="H", res_name="GLY", chain_id=None, res_seq=-6, ins_code=None, x=1.5, y=0.0, z=12.25, charge=0.4, radius=0.0)),
+    ("HETATM 1234  O   HOH   301       1.000   2.000   3.000 -0.8340 1.7683\n",
+     dict(type="HETATM", serial=1234, name="O", res_name="HOH", chain_id=None, res_seq=301, ins_code=None, x=1.0, y=2.0, z=3.0, charge=-0.834, radius=1.7683)),
+    ("HETATM12345  C1  LIG B 301 A     1.000   2.000   3.000  0.1000 1.9080\n",
+     dict(type="HETATM", serial=12345, name="C1", res_name="LIG", chain_id="B", res_seq=301, ins_code="A", x=1.0, y=2.0, z=3.0, charge=0.1, radius=1.908)),
+    ("TER\n", None),
+    ("END\n", None),
+]
+
+
+def rule_pqr_reader(prog, rep, rid, title="pdb2pqr's own PQR reader turns every ATOM/HETATM line into one atom with the written field values"):
+    """io.read_pqr / Atom.from_pqr_line are executed on object models over model PQR lines in every layout the writer emits."""
+    from ..guards import Flow
+    from ..objinterp import ObjRunner
+    r = rep.rule(rid, title, floor=6)
+    fr = prog.func("io.py", "read_pqr")
+    where = f"pdb2pqr/io.py:{fr.node.lineno} (read_pqr) / pdb2pqr/structures.py (Atom.from_pqr_line)"
+    run = ObjRunner(prog, "structures.py")
+    lines = [ln for ln, _ in PQR_MODEL_LINES]
+    try:
+        run.rel = "io.py"
+        atoms = run.call_function("io.py", "read_pqr", lines)
+    except Flow as fl:
+        r.bad("reader|runs", f"read_pqr stops with {fl.value} on a model file made of the layouts the writer emits "
+              "(default, --keep-chain, --whitespace, insertion code, negative residue number, five-digit serial)", where)
+        return
+    want = [w for _, w in PQR_MODEL_LINES if w is not None]
+    if not isinstance(atoms, list):
+        raise AnalysisError("read_pqr did not return a list on the model")
+    r.add("reader|one-atom-per-coordinate-line", len(atoms) == len(want),
+          f"{len(want)} ATOM/HETATM lines among {len(lines)} model lines -> {len(atoms)} atoms returned "
+          f"(types {[a.get('type') if isinstance(a, dict) else a for a in atoms]})", where)
+    for i, (a, w) in enumerate(zip(atoms, want)):
+        got = {k: a.get(k) for k in w} if isinstance(a, dict) else {}
+        bad = {k: (got.get(k), w[k]) for k in w if got.get(k) != w[k]}
+        r.add(f"reader|fields|{w['type']}:{w['serial']}", not bad, "every field equals the written token" if not bad else
+              f"fields differ (read, written): {bad}", where)
+    r.info["model_lines"] = len(lines)
+    r.info["methods_interpreted"] = sorted(set(run.calls))
